@@ -432,6 +432,17 @@ package litefs
 // pageSize+8 bytes is in place for ReadFrame.
 //@ func (r *JournalReader) Next [C17,C05]
 //@   requires  jrOK(r) && r.pageSize <= 65536
+// SQLite's rule for the end of the journal: a segment whose header was read in full, is not zeroed, carries the magic
+// (after the first segment) and a non-zero sector size (first segment) is refused with io.EOF only if the file does not
+// even hold that whole header sector -- a journal of exactly one sector is a valid (empty) segment.
+//@   ghost rd int = 0
+//@   ghost zero bool = false
+//@   ghost sec uint32 = 0
+//@   ghost magic bool = true
+//@   on call internal.ReadFullAt ; then rd = (ret1 == nil ? 1 : 2)
+//@   on call isByteSliceZero ; then zero = ret0, sec = be32(arg0, 20)
+//@   on call bytes.Equal ; then magic = ret0
+//@   proves    err == io.EOF && old(r.pageSize) != 0 && rd == 1 && !zero && (r.offset == 0 ? sec != 0 : magic) ==> r.offset + int64(r.sectorSize) > fileSize(r.fi)
 //@   ensures   jrOK(r) && r.pageSize == old(r.pageSize)
 //@   ensures   err == nil ==> r.sectorSize != 0 && r.pageSize != 0 && len(r.frame) == int(r.pageSize) + 8
 //@   ensures   err == nil ==> r.offset == old(r.offset) + int64(r.sectorSize) || old(r.offset) != 0
@@ -490,7 +501,7 @@ package litefs
 // The per-page and per-block checksum slices never share a backing array.
 //@ pred chkArraysDisjoint(db *DB) = cap(db.chksums.blocks) == 0 || cap(db.chksums.pages) == 0 || !sameArray(db.chksums.pages, db.chksums.blocks)
 
-//@ func pageChksumBlock [C04,C03]
+//@ func pageChksumBlock [C04,C03,C02]
 //@   requires  pgno > 0
 //@   modifies
 //@   ensures   result == (pgno - 1) / 256
@@ -672,7 +683,7 @@ package litefs
 //@   ensures   pgno != ltx.LockPgno(db.pageSize) && pgno > pageN ==> !ok
 //@   nopanic
 
-//@ func (db *DB) recomputeBlockChksum [C04]
+//@ func (db *DB) recomputeBlockChksum [C04,C02]
 //@   requires  db != nil && len(db.chksums.pages) <= 0xffffffff && len(db.chksums.blocks) <= 0xffffffff && block < 0xffffff && chkArraysDisjoint(db)
 //@   loop 1 invariant i <= 256 && len(db.chksums.blocks) > int(block) && (i > 0 ==> chksum & ltx.ChecksumFlag != 0)
 //@   loop 1 decreases 256 - int(i)
@@ -682,7 +693,7 @@ package litefs
 //@   ensures   chkArraysDisjoint(db)
 //@   nopanic
 
-//@ func (db *DB) blockChksum [C04]
+//@ func (db *DB) blockChksum [C04,C02]
 //@   requires  db != nil && len(db.chksums.pages) <= 0xffffffff && len(db.chksums.blocks) <= 0xffffffff && block < 0xffffff && chkArraysDisjoint(db)
 //@   modifies  db.chksums.blocks, contents(db.chksums.blocks)
 //@   ensures   len(db.chksums.blocks) <= 0xffffffff && chkArraysDisjoint(db)
